@@ -30,6 +30,29 @@ impl VAtomicU64 {
         ensures r == self.v
     { self.v }
 }
+impl VAtomicU64 {
+    pub fn new(v: u64) -> (r: VAtomicU64) ensures r.v == v { VAtomicU64 { v } }
+}
+/// R6: `(0..n).map(|_| AtomicU64::new(0)).collect()` -- n zero words (iterator adapters are outside Verus;
+/// K-bm `new_is_empty_with_stated_len` checks the real expression, bounded)
+pub fn zero_words(n: usize) -> (r: Vec<VAtomicU64>)
+    ensures r@.len() == n, forall|i: int| 0 <= i < n ==> (#[trigger] r@[i]).v == 0
+{
+    let mut v: Vec<VAtomicU64> = Vec::new();
+    let mut i: usize = 0;
+    while i < n
+        invariant i <= n, v@.len() == i, forall|j: int| 0 <= j < i ==> (#[trigger] v@[j]).v == 0
+        decreases n - i
+    { v.push(VAtomicU64::new(0)); i += 1; }
+    v
+}
+/// R6: Vec::resize_with(n, Default::default) for words: truncate or extend with zero words
+#[verifier::external_body]
+pub fn resize_with_zero(v: &mut Vec<VAtomicU64>, n: usize)
+    ensures final(v)@.len() == n,
+        forall|i: int| 0 <= i < n && i < old(v)@.len() ==> final(v)@[i] == old(v)@[i],
+        forall|i: int| old(v)@.len() <= i < n ==> (#[trigger] final(v)@[i]).v == 0,
+{ unimplemented!() }
 pub struct NonZeroUsize { pub v: usize }
 impl NonZeroUsize {
     pub fn get(&self) -> (r: usize) ensures r == self.v { self.v }
@@ -55,6 +78,12 @@ pub proof fn lemma_andnot_bit(w: u64, i: u64, j: u64)
     ensures ((w & !(1u64 << i)) >> j) & 1 == (if i == j { 0u64 } else { (w >> j) & 1 })
 {
     assert(i < 64 && j < 64 ==> ((w & !(1u64 << i)) >> j) & 1 == (if i == j { 0u64 } else { (w >> j) & 1 })) by (bit_vector);
+}
+pub proof fn lemma_bits0(i: u64)
+    requires i < 64
+    ensures !((0u64 >> i) & 1 == 1)
+{
+    assert(i < 64 ==> !((0u64 >> i) & 1 == 1)) by (bit_vector);
 }
 pub proof fn lemma_test_bit(w: u64, i: u64)
     requires i < 64
@@ -111,6 +140,53 @@ impl AtomicBitmap {
         len > 0 && start / (self.page_size.v as int) <= n
         && n <= (if start + len - 1 > usize::MAX { usize::MAX as int } else { start + len - 1 }) / (self.page_size.v as int)
     }
+
+//@fn src/bitmap/backend/atomic_bitmap.rs :: impl AtomicBitmap :: new :: tags=C09,C07
+//@sub let map: Vec<AtomicU64> = \(0\.\.map_size\)\.map\(\|_x\| AtomicU64::new\(0\)\)\.collect\(\); => let map: Vec<VAtomicU64> = zero_words(map_size);
+//@sub u64::BITS as usize => 64usize
+//@spec
+    requires page_size.v >= 1,
+    ensures r.wf(), r.page_size == page_size, r.byte_size == byte_size,
+        r.size == (byte_size + page_size.v - 1) / (page_size.v as int), // [C09]
+        forall|n: int| !#[trigger] r.dirty(n), // [C09]
+//@end
+//@before 1 /AtomicBitmap \{/
+        proof {
+            assert forall|n: int| 0 <= n < map@.len() * 64 implies !#[trigger] bit(map@, n) by {
+                assert(map@[n / 64].v == 0);
+                lemma_bits0((n % 64) as u64);
+            }
+        }
+//@end
+//@canary floor_div :: byte_size\.div_ceil\(page_size\.get\(\)\) => (byte_size / page_size.get())
+//@endfn
+
+//@fn src/bitmap/backend/atomic_bitmap.rs :: impl AtomicBitmap :: enlarge :: tags=C09,C07
+//@sub self\.map\.resize_with\(map_size, Default::default\); => resize_with_zero(&mut self.map, map_size);
+//@sub u64::BITS as usize => 64usize
+//@spec
+    requires old(self).wf(),
+        old(self).byte_size + additional_size <= usize::MAX, // sizes are chosen by the VMM, not by the guest
+        old(self).size == (old(self).byte_size + old(self).page_size.v - 1) / (old(self).page_size.v as int),
+    ensures final(self).wf(), final(self).page_size == old(self).page_size,
+        final(self).byte_size == old(self).byte_size + additional_size, // [C09]
+        // the page count is recomputed from the TOTAL byte size
+        final(self).size == (old(self).byte_size + additional_size + old(self).page_size.v - 1) / (old(self).page_size.v as int), // [C09]
+        // existing marks are kept and only clean pages are added
+        forall|n: int| #[trigger] final(self).dirty(n) == old(self).dirty(n), // [C09]
+//@end
+//@after 1 /resize_with_zero/
+        proof {
+            let ps = self.page_size.v as int;
+            vstd::arithmetic::div_mod::lemma_div_is_ordered(old(self).byte_size + ps - 1, old(self).byte_size + additional_size + ps - 1, ps);
+            assert(old(self).size <= self.size);
+            assert forall|n: int| 0 <= n < self.map@.len() * 64 implies #[trigger] bit(self.map@, n) == (n < old(self).map@.len() * 64 && bit(old(self).map@, n)) by {
+                if n / 64 >= old(self).map@.len() { assert(self.map@[n / 64].v == 0); lemma_bits0((n % 64) as u64); }
+            }
+        }
+//@end
+//@canary accumulate :: self\.size = self\.byte_size\.div_ceil\(self\.page_size\.get\(\)\) => self.size = self.size + additional_size.div_ceil(self.page_size.get())
+//@endfn
 
 //@fn src/bitmap/backend/atomic_bitmap.rs :: impl AtomicBitmap :: is_bit_set :: tags=C09,C07
 //@before 0 /-/
